@@ -55,6 +55,23 @@ namespace cnl {
             return next_ptr + 1;
         }
 
+        // as to_chars_natural but for a negative value (whose negation may not be representable)
+        [[nodiscard]] constexpr auto to_chars_natural_negative(char* ptr, char* last, auto const& value, int base = 10) -> char*
+        {
+            auto const quotient = value / base;
+
+            auto const next_ptr = quotient ? to_chars_natural_negative(ptr, last, quotient, base) : ptr;
+
+            if (next_ptr == last || next_ptr == nullptr) {
+                return nullptr;
+            }
+
+            auto const remainder = (quotient * base) - value;
+            *next_ptr = itoc(static_cast<int>(remainder));
+
+            return next_ptr + 1;
+        }
+
         [[nodiscard]] constexpr auto
         to_chars_positive(char* const first, char* const last, integer auto const& value, int base)
         {
@@ -78,10 +95,12 @@ namespace cnl {
                     // -ve
                     *first = '-';
 
-                    // implementation does not support the most negative number
-                    CNL_ASSERT(-std::numeric_limits<decltype(-value)>::max() <= value);
-
-                    return to_chars_positive(first + 1, last, -value, base);
+                    // generate the digits from the negative side: -value is not representable
+                    // for the most negative number
+                    auto const natural_last = to_chars_natural_negative(first + 1, last, value, base);
+                    return std::to_chars_result{
+                            natural_last ? natural_last : last,
+                            natural_last ? std::errc{} : std::errc::value_too_large};
                 }
             }
 
